@@ -65,6 +65,13 @@ func (m RelativeObjectMap) FindGroupKindName(gk schema.GroupKind, name string) *
 	return nil
 }
 
+// RelativeName returns the key under which obj is stored in a RelativeObjectMap
+// built for parent. It is also the form in which the names of children are
+// recorded in ControllerRevisions.
+func RelativeName(parent v1.Object, obj *unstructured.Unstructured) string {
+	return relativeName(parent, obj)
+}
+
 // relativeName returns the name of the object relative to the parent.
 // If the parent is cluster scoped and the object namespaced scoped the
 // name is of the format <namespace>/<name>. Otherwise, the name of the object
